@@ -378,7 +378,7 @@ def needs_module_level(D, P, B):
     return any(n.split("(")[0] in ("f", "g") for n in names)
 
 
-def render_cases(site, D, P, B, lists, how, x=None):
+def render_cases(site, D, P, B, lists, how, x=None, strict=False):
     """rendered output per case (list of ('ok', text) / ('raise', exc name)); `how` = 'context' | 'import'"""
     from mako.template import Template
     if needs_module_level(D, P, B):
@@ -393,6 +393,8 @@ def render_cases(site, D, P, B, lists, how, x=None):
     else:
         data["f"] = user_f
         data["g"] = user_g
+    if strict:
+        kw["strict_undefined"] = True
     t = Template(src, buffer_filters=B, **kw)
     out = t.render_unicode(**data)
     parts = re.split("\x01(\\w+)\x02", out)
@@ -404,26 +406,38 @@ def render_cases(site, D, P, B, lists, how, x=None):
     return [("ok", res.get(k)) for k in range(len(lists))]
 
 
-def task_pipe_oracle(a):
-    site, D, P, B, lists, how = a
-    install_usermod()
-    r = new_result()
+def _render_all(site, D, P, B, lists, how, strict):
     try:
-        got = render_cases(site, D, P, B, lists, how)
+        return render_cases(site, D, P, B, lists, how, strict=strict)
     except Exception:
         got = []
         for fs in lists:
             try:
-                got.append(render_cases(site, D, P, B, [fs], how)[0])
+                got.append(render_cases(site, D, P, B, [fs], how, strict=strict)[0])
             except Exception as e:
                 got.append(("raise", type(e).__name__))
-    for fs, g in zip(lists, got):
-        r["cases"] += 1
-        want = expected_output(site, D, P, B, fs)
-        br(r, "oracle-pipe:%s:%s" % (site, want[0]))
-        if g != want:
-            case = {"kind": "pipe", "site": site, "D": D, "P": P, "B": B, "fs": fs, "how": how}
-            r["viol"].append(("pipeline-order:" + site, case, {"rendered": g, "documented": want}, "oracle.pipeline"))
+        return got
+
+
+def task_pipe_oracle(a):
+    """a = (site, D, P, B, lists, how[, stricts]); every case is rendered under each strict_undefined setting of
+    `stricts` and must give the documented composition under each (so the settings agree with one another)"""
+    site, D, P, B, lists, how = a[:6]
+    stricts = a[6] if len(a) > 6 else (False,)
+    install_usermod()
+    r = new_result()
+    for strict in stricts:
+        got = _render_all(site, D, P, B, lists, how, strict)
+        for fs, g in zip(lists, got):
+            r["cases"] += 1
+            want = expected_output(site, D, P, B, fs)
+            br(r, "oracle-pipe:%s:%s%s" % (site, want[0], ":strict_undefined" if strict else ""))
+            if g != want:
+                case = {"kind": "pipe", "site": site, "D": D, "P": P, "B": B, "fs": fs, "how": how, "strict": strict}
+                name = "pipeline-order:" + site
+                if strict and g[0] == "raise" and g[1] == "NameError":
+                    name = "builtin-flag-demanded-from-context:" + site
+                r["viol"].append((name, case, {"rendered": g, "documented": want}, "oracle.pipeline"))
     return r
 
 
@@ -435,7 +449,7 @@ def pipe_case_holds(case):
     if isinstance(x, dict) and "bytes" in x:
         x = bytes.fromhex(x["bytes"])
     try:
-        g = render_cases(site, D, P, B, [fs], how, x=x)[0]
+        g = render_cases(site, D, P, B, [fs], how, x=x, strict=bool(case.get("strict")))[0]
     except Exception as e:
         g = ("raise", type(e).__name__)
     want = expected_output(site, D, P, B, fs, x=x)
@@ -457,7 +471,8 @@ def shrink_pipe(case):
                 cur[key] = s
                 break
     cur["fs"] = ddmin(cur["fs"], lambda fs: fails(dict(cur, fs=list(fs))), 200)
-    cur["input"] = "%s|D=%r|P=%r|B=%r|%s" % (cur["site"], cur["D"], cur["P"], cur["B"], ",".join(cur["fs"]))
+    cur["input"] = "%s|D=%r|P=%r|B=%r|%s%s" % (cur["site"], cur["D"], cur["P"], cur["B"], ",".join(cur["fs"]),
+                                              "|strict_undefined" if cur.get("strict") else "")
     return cur
 
 
@@ -861,6 +876,49 @@ def corr_regexes(ctx, drv):
         ctx.branch("split:" + ("match" if m else "none"))
 
 
+def corr_context_names(ctx, drv):
+    """second role of DEFAULT_ESCAPES: Lean `contextNames` vs `undeclared_identifiers()` of the real Expression /
+    DefTag / BlockTag / TextTag nodes, fed with the identifiers the real ArgumentList found in the filter list"""
+    from mako.lexer import Lexer
+    from mako import parsetree, ast as mast
+    st = ctx.stream("corr.context-names")
+    lists = list(all_lists(2)) + [["decode.latin1"], ["ns.f", "h"], ["f(g)"], ["h(trim)"], ["decode"], ["decode.utf8(1)"],
+                                  ["n", "entity", "unicode", "str"], ["filters.trim"], ["x_y", "x"]]
+    lists += [[ctx.rng.choice(FILTERS + ["ns.f", "decode.latin1", "q"]) for _ in range(ctx.rng.choice([3, 4]))]
+              for _ in range(60 if ctx.quick else 2000)]
+    kinds = {"expr": parsetree.Expression, "def": parsetree.DefTag, "block": parsetree.BlockTag, "text": parsetree.TextTag}
+    for site, cls in kinds.items():
+        for ch in chunks(lists, 300):
+            src = build_template(site, None, ch, call=False)
+            nodes = [n for n in Lexer(src).parse().nodes if isinstance(n, cls)]
+            if len(nodes) != len(ch):
+                ctx.disagree("corr.context-names", {"kind": "ctxnames", "site": site}, None, "%d nodes for %d cases" % (len(nodes), len(ch)))
+                continue
+            idss = [sorted(mast.ArgumentList(", ".join(fs) if site == "expr" else attr_text(fs)).undeclared_identifiers)
+                    for fs in ch]
+            outs = drv.ask_many(squeeze("pipe ctxnames " + lst_fields(ids)) for ids in idss)
+            for fs, node, ids, o in zip(ch, nodes, idss, outs):
+                st["cases"] += 1
+                model = set() if o == "[]" else {dec(t) for t in o.split()}
+                real = set(node.undeclared_identifiers())
+                if site == "expr":
+                    model = model | {"x"}
+                ctx.branch("ctxnames:%s:%s" % (site, "some" if model - {"x"} else "none"))
+                if model != real:
+                    ctx.disagree("corr.context-names", {"kind": "ctxnames", "site": site, "fs": fs, "idents": ids},
+                                 sorted(model), sorted(real))
+    # the leading identifier of an entry is what Python's parser reports for it
+    entries = sorted(set(FILTERS + FILTER_ITEMS + ["decode.latin1", "a.b.c(1)", "_p(2)[0]"]))
+    outs = drv.ask_many("pipe headident " + enc(e) for e in entries)
+    for e, o in zip(entries, outs):
+        st["cases"] += 1
+        node = ast.parse(e, mode="eval").body
+        while not isinstance(node, ast.Name):
+            node = node.func if isinstance(node, ast.Call) else node.value
+        if o != enc(node.id):
+            ctx.disagree("corr.context-names", {"kind": "headident", "input": e}, o, node.id)
+
+
 # --------------------------------------------------------------------------- driver of the check
 
 def merge(ctx, stream, kind, r):
@@ -940,6 +998,16 @@ def pipe_jobs(ctx):
             for ch in chunks(oracle_other, 300):
                 orc.append(("bufdef", D, P, B, ch, "import" if i % 3 == 0 else "context"))
                 i += 1
+    # every built-in flag name (alone and in pairs with every other entry) at every site, strict_undefined off AND on
+    flag_lists = list(all_lists(2)) + [["decode.latin1"], ["decode.ascii", "h"], ["n", "decode.utf_8"], ["trim", "decode.cp1252"]]
+    for (D, P) in REPR_CFGS + [(["str"], None)]:
+        for site in SITES:
+            for B in (BUFS if site == "bufdef" else [B0]):
+                if site == "bufdef" and ctx.quick and B not in ([], ["trim", "f"]):
+                    continue
+                for ch in chunks(flag_lists, 200):
+                    orc.append((site, D, P, B, ch, "import" if i % 2 == 0 else "context", (False, True)))
+                    i += 1
     return corr, orc
 
 
@@ -1098,6 +1166,7 @@ def run(ctx):
             for a in so_jobs:
                 oasyncs.append(("oracle.scanner", pool.apply_async(task_scan_oracle, (a,))))
             corr_regexes(ctx, drv)
+            corr_context_names(ctx, drv)
             for stream, kind, a in asyncs:
                 r = a.get(timeout=3000)
                 ctx.stream(stream, kind, exhaustive=stream in ("corr.scanner.exhaustive",) or
